@@ -10,25 +10,25 @@ Two layers.
     decodes is exactly the old records or exactly the old records plus the new one — never a
     mixture — and after any continuation history the torn bytes are inert (the next record's
     leading newline terminates them).  Lookups of every key follow (C05).
-`TornLaws.prefix_none` is where the checksum earns its keep: a strict prefix of a record line does
-not decode (no tab yet, a short checksum, or a checksum of a different text — the last needs
-SHA-256 not to collide on {json, prefix-of-json}, which the concrete instance states explicitly).
+`TornLaws.prefix_none`: a strict prefix of a record line does not decode (no tab yet, or a cut
+JSON object, which never parses — proved for the concrete codec in `Lemmas/Record.lean` without
+any assumption on the hash function).  The laws are required of the records in `W` only
+(`Rec.WF` for the concrete codec).
 -/
 import Cacache.Lemmas.Bucket
 import Cacache.Lemmas.Stream
 import Cacache.Props.C06
+import Cacache.Lemmas.CodecLaws
 
 namespace Cacache.C04
 open Prog
 
-variable {R M : Type}
+variable {R M : Type} {W : R → Prop}
 
-/-- Laws about partial records, on top of `Codec.Laws`. -/
-structure TornLaws (c : Codec R M) : Prop extends c.Laws where
-  prefix_none : ∀ r p, p <+: c.enc r → p ≠ c.enc r → c.dec p = none
-  enc_no_cr : ∀ r, CR ∉ c.enc r
+/-- Laws about partial records, on top of `Codec.Laws` (`Codec.TornLaws`, Lemmas/Index). -/
+abbrev TornLaws (c : Codec R M) (W : R → Prop) : Prop := c.TornLaws W
 
-theorem stripCR_prefix (c : Codec R M) (L : TornLaws c) (r : R) (p : Bytes) (hp : p <+: c.enc r) :
+theorem stripCR_prefix (c : Codec R M) (L : TornLaws c W) (r : R) (hr : W r) (p : Bytes) (hp : p <+: c.enc r) :
     stripCR p = p := by
   apply stripCR_of_no_cr
   intro h
@@ -38,16 +38,16 @@ theorem stripCR_prefix (c : Codec R M) (L : TornLaws c) (r : R) (p : Bytes) (hp 
     | some x =>
       rw [hl] at h; cases h
       exact List.mem_of_getLast? hl
-  exact L.enc_no_cr r (hp.subset this)
+  exact L.enc_no_cr r hr (hp.subset this)
 
-theorem no_nl_prefix (c : Codec R M) (L : TornLaws c) (r : R) (p : Bytes) (hp : p <+: c.enc r) :
-    NL ∉ p := fun h => L.enc_no_nl r (hp.subset h)
+theorem no_nl_prefix (c : Codec R M) (L : TornLaws c W) (r : R) (hr : W r) (p : Bytes) (hp : p <+: c.enc r) :
+    NL ∉ p := fun h => L.enc_no_nl r hr (hp.subset h)
 
 /-- **Old or new, never a mixture.**  Whatever prefix (any byte length `k`) of the frame of `r`
 follows a settled bucket `b0`, the records a reader decodes are exactly the old ones, or exactly
 the old ones followed by `r`. -/
-theorem torn_entries (c : Codec R M) (L : TornLaws c) (b0 : Bytes) (hs : c.Settled b0) (r : R)
-    (k : Nat) :
+theorem torn_entries (c : Codec R M) (L : TornLaws c W) (b0 : Bytes) (hs : c.Settled b0) (r : R)
+    (hr : W r) (k : Nat) :
     c.entries (b0 ++ (c.frame r).take k) = c.entries b0 ∨
     c.entries (b0 ++ (c.frame r).take k) = c.entries b0 ++ [r] := by
   cases k with
@@ -57,26 +57,26 @@ theorem torn_entries (c : Codec R M) (L : TornLaws c) (b0 : Bytes) (hs : c.Settl
     rw [hfr, c.entries_append_nl, ← hs]
     have hp : (c.enc r).take k <+: c.enc r := List.take_prefix _ _
     by_cases hfull : (c.enc r).take k = c.enc r
-    · right; rw [hfull, L.entries_enc]
+    · right; rw [hfull, L.entries_enc r hr]
     · left
-      have hnl := no_nl_prefix c L r _ hp
+      have hnl := no_nl_prefix c L r hr _ hp
       unfold Codec.entries
       rw [lines_no_nl _ _ hnl]
       unfold lineU
       split
       · simp
       · split
-        · simp [Codec.decLine, L.prefix_none r _ hp hfull]
+        · simp [Codec.decLine, L.prefix_none r hr _ hp hfull]
         · simp [Codec.decLine]
 
 /-- **The cache stays fully usable.**  After the torn append, any further history of appends
 `rs` (non-empty) is read as: the old records, possibly the interrupted record (only if it was
 completely written), then exactly `rs` — the torn bytes never swallow or corrupt a later record. -/
-theorem torn_then_history (c : Codec R M) (L : TornLaws c) (b0 : Bytes) (hs : c.Settled b0)
-    (r : R) (k : Nat) (rs : List R) (hrs : rs ≠ []) :
+theorem torn_then_history (c : Codec R M) (L : TornLaws c W) (b0 : Bytes) (hs : c.Settled b0)
+    (r : R) (hr : W r) (k : Nat) (rs : List R) (hW : ∀ x ∈ rs, W x) (hrs : rs ≠ []) :
     c.entries (c.appendAll (b0 ++ (c.frame r).take k) rs) = c.entries b0 ++ rs ∨
     c.entries (c.appendAll (b0 ++ (c.frame r).take k) rs) = c.entries b0 ++ [r] ++ rs := by
-  rw [L.entries_appendAll_ne_nil _ rs hrs]
+  rw [L.entries_appendAll_ne_nil _ rs hW hrs]
   cases k with
   | zero => left; simp [hs.symm]
   | succ k =>
@@ -84,32 +84,32 @@ theorem torn_then_history (c : Codec R M) (L : TornLaws c) (b0 : Bytes) (hs : c.
     rw [hfr, c.entriesT_append_nl, ← hs]
     have hp : (c.enc r).take k <+: c.enc r := List.take_prefix _ _
     by_cases hfull : (c.enc r).take k = c.enc r
-    · right; rw [hfull, L.entriesT_enc]
+    · right; rw [hfull, L.entriesT_enc r hr]
     · left
-      have hnl := no_nl_prefix c L r _ hp
+      have hnl := no_nl_prefix c L r hr _ hp
       unfold Codec.entriesT
       rw [splitNL_no_nl _ hnl]
       simp only [linesT, List.map_cons, List.map_nil, lineT]
       split
-      · simp [Codec.decLine, stripCR_prefix c L r _ hp, L.prefix_none r _ hp hfull]
+      · simp [Codec.decLine, stripCR_prefix c L r hr _ hp, L.prefix_none r hr _ hp hfull]
       · simp [Codec.decLine]
 
 /-- Lookup consequence: after a crash during an insert of `r`, every key is found exactly as
 before the insert or exactly as after it; keys other than `r`'s are found as before. -/
-theorem torn_lookup (c : Codec R M) (L : TornLaws c) (b0 : Bytes) (hs : c.Settled b0) (r : R)
-    (k : Nat) (key : Bytes) :
+theorem torn_lookup (c : Codec R M) (L : TornLaws c W) (b0 : Bytes) (hs : c.Settled b0) (r : R)
+    (hr : W r) (k : Nat) (key : Bytes) :
     c.find (b0 ++ (c.frame r).take k) key = c.find b0 key ∨
     c.find (b0 ++ (c.frame r).take k) key = c.find (b0 ++ c.frame r) key := by
   unfold Codec.find
-  rcases torn_entries c L b0 hs r k with h | h
+  rcases torn_entries c L b0 hs r hr k with h | h
   · left; rw [h]
-  · right; rw [h, L.entries_append_frame, ← hs]
+  · right; rw [h, L.entries_append_frame _ r hr, ← hs]
 
-theorem torn_lookup_other_key (c : Codec R M) (L : TornLaws c) (b0 : Bytes) (hs : c.Settled b0)
-    (r : R) (k : Nat) (key : Bytes) (hk : c.key r ≠ key) :
+theorem torn_lookup_other_key (c : Codec R M) (L : TornLaws c W) (b0 : Bytes) (hs : c.Settled b0)
+    (r : R) (hr : W r) (k : Nat) (key : Bytes) (hk : c.key r ≠ key) :
     c.find (b0 ++ (c.frame r).take k) key = c.find b0 key := by
   unfold Codec.find
-  rcases torn_entries c L b0 hs r k with h | h
+  rcases torn_entries c L b0 hs r hr k with h | h
   · rw [h]
   · rw [h, c.findIn_append]
     simp [Codec.findStep, hk]
@@ -171,7 +171,44 @@ theorem content_first (w : Writer) (hw : w.Ok) (fs : FS) (q : Path) (hq : InArea
   AllCalls.frame_crash
     ((wcommitCheck_areas cfg w hw).mono (fun c hc => hc.avoids hq (by decide)) (fun _ h => h)) env fs n t
 
+/-! ### the concrete codec -/
+
+/-- **Old or new, never a mixture — for cacache's own record format and any hash function.**
+A keyed write / removal with well-formed options, torn at any byte `k` of its one index record:
+every reader decodes exactly the old records or exactly the old ones plus the new one. -/
+theorem torn_entries_cacache (b0 : Bytes) (hs : (codec cfg).Settled b0) (key : Bytes) (o : WriteOpts)
+    (ho : OptsWF key o) (tm : Nat) (htm : tm ≤ timeMax) (k : Nat) :
+    (codec cfg).entries (b0 ++ ((codec cfg).frame (mkRec key o tm)).take k) = (codec cfg).entries b0 ∨
+    (codec cfg).entries (b0 ++ ((codec cfg).frame (mkRec key o tm)).take k) =
+      (codec cfg).entries b0 ++ [mkRec key o tm] :=
+  torn_entries (codec cfg) (codec_tornLaws cfg) b0 hs _ (mkRec_wf key o tm ho htm) k
+
+/-- … hence every lookup, of any key, answers as before the write or as after it. -/
+theorem torn_lookup_cacache (b0 : Bytes) (hs : (codec cfg).Settled b0) (key : Bytes) (o : WriteOpts)
+    (ho : OptsWF key o) (tm : Nat) (htm : tm ≤ timeMax) (k : Nat) (key' : Bytes) :
+    (codec cfg).find (b0 ++ ((codec cfg).frame (mkRec key o tm)).take k) key' = (codec cfg).find b0 key' ∨
+    (codec cfg).find (b0 ++ ((codec cfg).frame (mkRec key o tm)).take k) key' =
+      (codec cfg).find (b0 ++ (codec cfg).frame (mkRec key o tm)) key' :=
+  torn_lookup (codec cfg) (codec_tornLaws cfg) b0 hs _ (mkRec_wf key o tm ho htm) k key'
+
+/-- … and after any further history of well-formed appends the torn bytes are inert. -/
+theorem torn_then_history_cacache (b0 : Bytes) (hs : (codec cfg).Settled b0) (key : Bytes)
+    (o : WriteOpts) (ho : OptsWF key o) (tm : Nat) (htm : tm ≤ timeMax) (k : Nat) (rs : List Rec)
+    (hW : ∀ x ∈ rs, x.WF) (hrs : rs ≠ []) :
+    (codec cfg).entries ((codec cfg).appendAll (b0 ++ ((codec cfg).frame (mkRec key o tm)).take k) rs) =
+      (codec cfg).entries b0 ++ rs ∨
+    (codec cfg).entries ((codec cfg).appendAll (b0 ++ ((codec cfg).frame (mkRec key o tm)).take k) rs) =
+      (codec cfg).entries b0 ++ [mkRec key o tm] ++ rs :=
+  torn_then_history (codec cfg) (codec_tornLaws cfg) b0 hs _ (mkRec_wf key o tm ho htm) k rs hW hrs
+
+/-- The empty bucket and every bucket ending in a whole record are settled (the hypothesis `hs`). -/
+theorem settled_cacache (b0 : Bytes) (rs : List Rec) (hW : ∀ x ∈ rs, x.WF) :
+    (codec cfg).Settled ((codec cfg).appendAll [] rs) ∧
+    ((codec cfg).Settled b0 → (codec cfg).Settled ((codec cfg).appendAll b0 rs)) :=
+  ⟨(codec_laws cfg).settled_appendAll [] rs hW (codec_laws cfg).settled_nil,
+   fun h => (codec_laws cfg).settled_appendAll b0 rs hW h⟩
+
 /-- Non-vacuity: the hypotheses of the codec-level theorems are met by the empty bucket. -/
-example (c : Codec R M) (L : TornLaws c) : c.Settled [] := L.toLaws.settled_nil
+example (c : Codec R M) (L : TornLaws c W) : c.Settled [] := L.toLaws.settled_nil
 
 end Cacache.C04
